@@ -314,6 +314,15 @@ where
 
     /// Accepts a welcome
     pub fn accept_welcome(&self, welcome: &welcome_types::Welcome) -> Result<(), Error> {
+        // An invitation is accepted once. Joining again from an invitation that was already
+        // accepted would replace the group's MLS state with the state at the invitation's epoch --
+        // even after the user was removed from the group, which would make it Active again.
+        if let Some(stored) = self.get_welcome(&welcome.id)?
+            && stored.state == welcome_types::WelcomeState::Accepted
+        {
+            return Ok(());
+        }
+
         let welcome_preview = self.preview_welcome(&welcome.wrapper_event_id, &welcome.event)?;
 
         // An invitation to a group the user is already active in is not joined again (accepting the
